@@ -65,7 +65,7 @@ def fields(line):
             k, v = tok.split("=", 1); d[k] = v
     return d
 
-def core_half(tier, seed, log):
+def core_half(tier, seed, log, escalate=False):
     """returns (n_lines, problems[list of (line, field, core, default, model)], undecided_reason)"""
     rc, out = sh(["cargo", "build", "--profile", "checked", "--offline"], cwd=CORE, timeout=3600)
     if rc != 0: return 0, [], "harness-core does not build against the working tree (no-default-features):\n" + out[-1500:]
@@ -76,19 +76,41 @@ def core_half(tier, seed, log):
     corpus = os.path.join(VERIF, "corpus", "C20.ops")
     if os.path.exists(corpus):
         lines += [l.rstrip("\n") for l in open(corpus) if l.strip() and not l.startswith("#")]
-    limit = 6000 if tier == "quick" else 60000
+    if escalate: tier_b = "thorough"
+    else: tier_b = tier
+    limit = 6000 if tier_b == "quick" else 60000
+    mined = None
+    try:
+        import mine as _mine
+        mined = _mine.mine(REPO, VERIF)
+        if mined and (mined["nums"] or mined["strs"]):
+            log(f"C20: literals mined from changed source lines {mined['files']}: numbers {mined['nums'][:12]} — used as lengths by the augmentation")
+    except Exception as ex:
+        mined = None
     for prop in ("C02", "C03", "C04", "C12", "C13", "C16"):
-        rc, out = sh([jpgen, prop, tier, str(seed), "--limit", str(limit)])
-        # skip the leading exhaustive block partly: keep every 3rd line of it to leave room for random ones
+        # the whole stream, thinned evenly: a head-limit would keep only the first (exhaustive) block of the first
+        # operation and never reach e.g. `from_encoded`, `deser` or the random part
+        rc, out = sh([jpgen, prop, tier, str(seed)])
         got = [l for l in out.split("\n") if l and l.split(" ", 1)[0] in CORE_FIELDS]
-        lines += got[::2] if prop in ("C02", "C03") else got
+        per_op = {}
+        for l in got: per_op.setdefault(l.split(" ", 1)[0], []).append(l)
+        for o, ls in per_op.items():
+            quota = max(1, limit // max(1, len(per_op)))
+            stride = max(1, len(ls) // quota)
+            lines += ls[::stride]
     try:
         from augment import augment
-        for prop in ("C02", "C03", "C04", "C12", "C13", "C16"):
-            sub = [l for l in lines if l.split(" ", 1)[0] in CORE_FIELDS]
-            extra = [l for l in augment(prop, sub[:20000], seed, budget=8000 if tier == "quick" else 60000) if l.split(" ", 1)[0] in CORE_FIELDS]
+        # one augmentation pass per operation, each with its own share of the budget (a pooled pass spends the whole
+        # budget on the operations that sort first)
+        byop = {}
+        for l in lines:
+            o = l.split(" ", 1)[0]
+            if o in CORE_FIELDS: byop.setdefault(o, []).append(l)
+        total = 8000 if tier_b == "quick" else 90000
+        share = max(600, total // max(1, len(byop)))
+        for j, (o, sub) in enumerate(sorted(byop.items())):
+            extra = [l for l in augment("C%02d" % (2 + j % 15), sub[:8000], seed, budget=share, mined=mined if j == 0 else None) if l.split(" ", 1)[0] in CORE_FIELDS]
             lines += extra
-            break      # one pass over the pooled core lines is enough
     except Exception as e:
         log(f"C20: augmentation skipped ({e})")
     def run(binary):
@@ -157,7 +179,11 @@ def run(tier, seed, replay, proof_phase, write_replay, log):
         violations.append((path, ""))
     # second half
     log("C20: core operations with all default features off vs default build vs model")
-    nlines, probs, undecided = core_half(tier, seed, log)
+    # a std-selected region that is not an Error impl, or a failed obligation: the table no longer shows the two builds
+    # equal — search much harder for a behavioural difference before falling back to no-failing-input-found
+    esc = bool(proof["failures"]) or bool([x for x in T.get("stdgated", []) if x[2]])
+    if esc: log("C20: proof obligation broken or behavioural std-gated region present: core comparison escalated to the thorough budget")
+    nlines, probs, undecided = core_half(tier, seed, log, escalate=esc)
     if undecided and not violations:
         if "no-default-features" in undecided:
             path = write_replay(prop, seed, 9, dict(property=prop, kind="minimal configuration does not build", detail=undecided))
